@@ -287,7 +287,7 @@ def finalizeProd (p : EProd) : Option RuleN :=
 def finalize (ps : List EProd) : Option (List RuleN) := ps.mapM finalizeProd
 
 inductive CanonRes | ok (rs : List RuleN) | fuel | panic | finalizeError
-  deriving Repr
+  deriving Repr, DecidableEq
 
 /-- `transform_productions(productions, grammar_type)` with loop fuel `fuel`. -/
 def canon (ty : GType) (fuel : Nat) (ps : List EProd) : CanonRes :=
